@@ -1,4 +1,4 @@
-import ast, os
+import ast, os, math
 import numpy as np
 from .. import common
 
@@ -115,13 +115,76 @@ def oracle(ck):
     ck.cov["solver_runs"] = runs
 
 
+def correspondence(ck):
+    """The executable residual expression (SystemsRun.resid_run, = SystemsGen.resid_expr at the reals) evaluated at binary64 on the
+    spectra and coefficients the numeric solver actually used (recorded at np.linalg.solve), against the returned optimal_asd;
+    and the contract the theorems assume: the recorded H solves T H = S."""
+    import speckit.systems as SY
+    from speckit.analysis import SpectrumAnalyzer
+    from ..common import fhex
+    kw = dict(Jdes=20, Kdes=8, order=0, scheduler="ltf", win="hann", olap=0.5)
+    terms, exp = [], []
+    cx = lambda z: "(%s, %s)" % (fhex(float(np.real(z))), fhex(float(np.imag(z))))
+    nruns = 2 if ck.tier == "quick" else 10
+    for _ in range(nruns):
+        N = 2500; fs = 2.0
+        g = np.random.default_rng(ck.rng.randint(0, 2 ** 31))
+        q = ck.rng.choice([1, 2, 3, 4])
+        X = [g.standard_normal(N) for _ in range(q)]
+        for a in range(1, q):
+            X[a] = X[a] + ck.rng.choice([0.0, 0.5]) * np.roll(X[0], a)          # correlated inputs: T is not diagonal
+        y = sum(ck.rng.uniform(-2, 2) * np.roll(x, ck.rng.choice([0, 1, 3])) for x in X) + 0.3 * g.standard_normal(N)
+        calls = []
+        orig = np.linalg.solve
+        def rec(a, b, _o=orig):
+            out = _o(a, b); calls.append((np.array(a, complex), np.array(b, complex), np.array(out, complex))); return out
+        np.linalg.solve = rec
+        try:
+            with np.errstate(all="ignore"):
+                f, asd = SY.MISO_numeric_optimal_spectral_analysis(X, y, fs, **kw)
+        finally:
+            np.linalg.solve = orig
+        with np.errstate(all="ignore"):
+            S00 = np.asarray(SpectrumAnalyzer(y, fs, **kw).compute().Gxx, float)
+        if len(calls) != len(f):
+            continue            # some bins went through pinv: not recorded
+        for k in sorted(set(ck.rng.randrange(len(f)) for _ in range(8))):
+            Tk, Sk, Hk = calls[k]
+            Hs = "[" + "; ".join(cx(v) for v in Hk) + "]"; Ss = "[" + "; ".join(cx(v) for v in Sk) + "]"
+            Ts = "[" + "; ".join("[" + "; ".join(cx(v) for v in row) + "]" for row in Tk) + "]"
+            terms.append("Eval vm_compute in (resid_run FloatA %s %s %s %s)." % (Hs, fhex(float(S00[k])), Ss, Ts)); exp.append(("resid", q, k, float(asd[k]), float(S00[k]), None))
+            terms.append("Eval vm_compute in (system_defect FloatA %s %s %s)." % (Hs, Ss, Ts)); exp.append(("defect", q, k, None, None, float(np.linalg.norm(Tk) * np.linalg.norm(Hk) + np.linalg.norm(Sk))))
+    body = "From Coq Require Import ZArith List PrimFloat.\nFrom SK Require Import Arith Cpx SystemsRun.\nImport ListNotations.\nOpen Scope float_scope.\n" + "\n".join(terms) + "\n"
+    res = common.run_case_files({"sys_%d" % os.getpid(): body})
+    rc, out = list(res.values())[0]
+    evs = common.parse_evals(out)
+    bad, badc = [], []
+    if rc != 0 or len(evs) != len(exp) or not exp:
+        bad.append("coq evaluation failed or nothing recorded: " + out[-300:])
+    else:
+        for ev, (kind, q, k, asd_k, s00, scale) in zip(evs, exp):
+            v = [float(t) for t in common.tokens(ev)]
+            if kind == "resid":
+                re, im = v[0], v[1]
+                if not (abs(math.hypot(re, im) - asd_k ** 2) <= 1e-9 * s00 + 1e-300 and abs(im) <= 1e-9 * s00 + 1e-300):
+                    bad.append("q=%d bin %d: model expression (%r, %r) vs optimal_asd^2 = %r (S00 = %r)" % (q, k, re, im, asd_k ** 2, s00))
+            else:
+                d = max(math.hypot(v[i], v[i + 1]) for i in range(0, len(v), 2))
+                if not d <= 1e-9 * scale:
+                    badc.append("q=%d bin %d: |T H - S| = %g (scale %g)" % (q, k, d, scale))
+    ck.obligation("correspondence:SystemsRun.resid_run at binary64 on the recorded (H, S, T, S00) == optimal_asd^2 of MISO_numeric (1e-9)", not bad, "; ".join(bad[:3]))
+    ck.obligation("contract:the coefficients recorded at np.linalg.solve solve T H = S (hypothesis of the C15 at-solution theorems, 1e-9)", not badc, "; ".join(badc[:3]))
+    ck.cov["correspondence_bins"] = len(exp) // 2
+
+
 def run(ck):
-    ck.build_theorems("Properties/C15.v", deps=["Systems.vo", "SystemsGen.vo"])
+    ck.build_theorems("Properties/C15.v", deps=["Systems.vo", "SystemsGen.vo", "SystemsRun.vo"])
     source_pairing(ck)
+    correspondence(ck)
     oracle(ck)
     ck.cov["rule"] = "q in {1,2,3} inputs with gains/delays, noise floor 0.05/0.5; analytic vs numeric; permutation; random invertible re-mixing; exact static combination; SISO with delay vs sqrt(Gyy(1-coh)); bins with navg > q"
     ck.samples = [dict(q=2, delays=[1, 3])]
-    ck.assumptions += ["theorems are at exact real arithmetic for any q; float rounding and ill-conditioning of the solvers are explored on the implementation", "sympy.solve / np.linalg.solve return a solution of the stated system (residual of the linear system not re-derived)"]
+    ck.assumptions += ["theorems are at exact real arithmetic for any q; float rounding and ill-conditioning of the solvers are explored on the implementation", "sympy.solve / np.linalg.solve / pinv are oracles: that the recorded coefficients solve T H = S is checked on sampled bins (contract obligation); the analytic solver is compared with the numeric one"]
 
 
 def replay(rec):
